@@ -8,6 +8,7 @@ import Emu2a.Spec.AluSpec
 import Emu2a.Spec.BusMap
 import Emu2a.Spec.Supervision
 import Emu2a.Spec.Opcodes
+import Emu2a.Spec.Isa
 import Emu2a.Model.Flow
 open Emu2a
 
@@ -32,6 +33,23 @@ structure St where
 
 def Emu2a.BusSpec.str (s : BusSpec) : String :=
   s!"ram={ramHash s.ram} out={hex2 s.outFE}{hex2 s.outFF} in={hex2 s.in0}{hex2 s.in1}{hex2 s.in2}{hex2 s.in3} mask={hex2 s.mask} do={hex2 s.do1}{hex2 s.do2} di={hex2 s.di1}"
+
+def archOf (m : Machine) : Isa.Arch :=
+  let r := m.core.regs
+  ⟨r.r0, r.r1, r.r2, r.r3, r.r4, r.r5, m.core.bus⟩
+
+def archStr (a : Isa.Arch) : String :=
+  let b := a.bus
+  let bd := b.board
+  s!"r={hex2 a.r0}{hex2 a.r1}{hex2 a.r2}{hex2 a.pc}{hex2 a.fr}{hex2 a.sp} out={hex2 b.outFE}{hex2 b.outFF} micr={hex2 b.micr} ucr={hex2 b.ucr} us={hex2 b.uartSend} t={b01 b.timer.enabled},{b.timer.div1},{b.timer.div2},{b.timer.div3} bd={hex2 bd.di1}{hex2 bd.do1}{hex2 bd.do2},{hex2 bd.dasr}{hex2 bd.daisr}{hex2 bd.daicr},{bd.ao1},{bd.ao2},{bd.fanRpm},{b01 bd.dir1}{b01 bd.dir2}{b01 bd.dir3} ram={ramHash b.ram}"
+
+/-- Edges with halts lifted (C01 harness runs): until `stop` holds or the fuel is used up. -/
+def runLifted (stop : Machine → Bool) : Nat → Machine → Machine
+  | 0, m => m
+  | fuel + 1, m =>
+    if stop m then m else
+      let m' := m.clockEdge
+      runLifted stop fuel (if m'.run ≠ .running then { m' with run := .running } else m')
 
 def aluStr (o : AluOut) : String := s!"{o.out.toNat} {b01 o.c} {b01 o.z} {b01 o.n}"
 
@@ -175,6 +193,35 @@ def applyOp (s : St) (ws : List String) : St × String :=
       let expSteps := if Isa.isMul op || Isa.isDiv op then steps else Flow.stepsOf op b2.toNat?
       (s, s!"edges={steps + ram} steps={expSteps}")
     | _, _, _ => bad
+  | ["toboundary"] =>
+    let m' := runLifted (fun x => x.core.done) 3000 m
+    ({ s with m := m' }, if m'.core.done then "boundary" else "hang")
+  | ["stepinstr"] =>
+    let m1 := runLifted (fun x => !x.core.done) 50 m
+    let m' := runLifted (fun x => x.core.done) 3000 m1
+    ({ s with m := m' }, if m'.core.done then "boundary" else "hang")
+  | ["spec.isa"] =>
+    if !m.core.done then (s, "not-at-boundary") else
+    match Isa.step (archOf m) with
+    | some a' => (s, archStr a')
+    | none => (s, "undefined")
+  | ["spec.int"] =>
+    -- interrupt requested at this boundary: the current instruction completes, then the entry
+    -- (taken iff MICR key enable and IEF are set when the instruction ends)
+    if !m.core.done then (s, "not-at-boundary") else
+    match Isa.step (archOf m) with
+    | some a' =>
+      let enabled := m.core.bus.keyEdgeEnabled
+      let ief := (a'.fr &&& 0x08#8) != 0#8
+      let op := ((archOf m).rd (archOf m).pc).toNat
+      -- EI / DI / RETI end without sampling the request: it stays pending for the next instruction
+      let samples := !(op / 4 == 2 || op / 4 == 3 || (0x2C ≤ op && op ≤ 0x2F))
+      if enabled && samples && ief then
+        let a2 := Isa.intEntry a'
+        (s, archStr { a2 with bus := { a2.bus with misr := a2.bus.misr ||| 0x11#8 } })
+      else
+        (s, archStr { a' with bus := { a'.bus with misr := a'.bus.misr ||| (if enabled then 0x11#8 else 0x01#8) } })
+    | none => (s, "undefined")
   | ["spec.asmstep"] => (s, "equal")
   | ["spec.cpureset"] =>
     (s, "a=0 ir=2 r=0000000000000000 pr=- pf=0 pi=0 alu=00000 lb=00 run=R w=0 out=0000 micr=00 ucr=00 kept=1")
